@@ -19,7 +19,30 @@ SPEC = {
     'VXLAN': ({'vni': (32, 24)}, []),
     'SLL': ({'packet_type': (0, 16), 'lladdr_type': (16, 16), 'lladdr_len': (32, 16), 'protocol': (112, 16)}, []),
     'UDP_': ({}, []),
+    # RFC 1035 section 4.1.1 (AD / CD: RFC 2535 section 6.1): bits counted from the most significant bit of the header
+    'DNS': ({'id': (0, 16), 'opcode': (17, 4), 'authoritative_answer': (21, 1), 'truncated': (22, 1), 'recursion_desired': (23, 1),
+             'recursion_available': (24, 1), 'z': (25, 1), 'authenticated_data': (26, 1), 'checking_disabled': (27, 1), 'rcode': (28, 4)}, []),
+    'BootP': ({'opcode': (0, 8), 'htype': (8, 8), 'hlen': (16, 8), 'hops': (24, 8), 'xid': (32, 32), 'secs': (64, 16), 'padding': (80, 16),
+               'ciaddr': (96, 32), 'yiaddr': (128, 32), 'siaddr': (160, 32), 'giaddr': (192, 32)}, []),
+    'SNAP': ({'dsap': (0, 8), 'ssap': (8, 8), 'control': (16, 8), 'org_code': (24, 24)}, [6, 7]),
+    'PPPoE': ({'version': (0, 4), 'type': (4, 4), 'code': (8, 8), 'session_id': (16, 16)}, [4, 5]),
+    'IPSecAH': ({'spi': (32, 32), 'seq_number': (64, 32)}, [0, 1]),
+    'IPSecESP': ({'spi': (0, 32), 'seq_number': (32, 32)}, []),
+    'RTP': ({'version': (0, 2), 'padding_bit': (2, 1), 'extension_bit': (3, 1), 'csrc_count': (4, 4), 'marker_bit': (8, 1), 'payload_type': (9, 7),
+             'sequence_number': (16, 16), 'timestamp': (32, 32), 'ssrc_id': (64, 32)}, []),
+    'ICMPv6': ({'type': (0, 8), 'code': (8, 8)}, [2, 3]),
 }
+SPEC['TCP'][0]['flags'] = (100, 12)
+SPEC['DHCP'] = SPEC['BootP']
+# IEEE 802.11 frame control (first octet: protocol version in the two LEAST significant bits, then type, then subtype; second octet:
+# to DS, from DS, more fragments, retry, power management, more data, protected, order from the least significant bit), for every class
+# of the Dot11 family; the address-4 flags pair changes the header length and is skipped by the equal-length guard
+DOT11_FC = {'subtype': (0, 4), 'type': (4, 2), 'protocol': (6, 2), 'order': (8, 1), 'wep': (9, 1), 'more_data': (10, 1), 'power_mgmt': (11, 1),
+            'retry': (12, 1), 'more_frag': (13, 1), 'from_ds': (14, 1), 'to_ds': (15, 1)}
+for _c in ('Dot11Data', 'Dot11QoSData', 'Dot11Beacon', 'Dot11ProbeRequest', 'Dot11ProbeResponse', 'Dot11AssocRequest', 'Dot11AssocResponse',
+           'Dot11ReAssocRequest', 'Dot11ReAssocResponse', 'Dot11Authentication', 'Dot11Deauthentication', 'Dot11Disassoc', 'Dot11Ack', 'Dot11RTS',
+           'Dot11CFEnd', 'Dot11EndCFAck', 'Dot11PSPoll', 'Dot11BlockAck', 'Dot11BlockAckRequest'):
+    SPEC[_c] = (dict(DOT11_FC), [])
 # message types whose header re-uses the bytes of id/sequence for a derived RFC 4884 length (the field under test does not
 # exist in such a message); they are not drawn as PRIOR state.  (False alarm seen with VERIF_SEED=1, corrected here.)
 UNION_DISCRIMINATOR = {('ICMP', 'type', 3), ('ICMP', 'type', 11), ('ICMP', 'type', 12), ('ICMPv6', 'type', 1), ('ICMPv6', 'type', 3)}
